@@ -463,7 +463,7 @@ type walker struct {
 	loopGo  map[*ast.GoStmt]bool
 	inLoop  int
 	ctorArg bool
-	inIf    int // > 0 inside the body of an if: a close(ch) here is a check-then-close
+	inIf    int        // > 0 inside the body of an if: a close(ch) here is a check-then-close
 	rules   *ruleState // split read-modify-write / use-after-release bookkeeping (rules.go)
 }
 
@@ -695,11 +695,12 @@ func (w *walker) stmt(s ast.Stmt) bool {
 			}
 		}
 		for i, l := range s.Lhs {
+			keep := s.Tok != token.ASSIGN && s.Tok != token.DEFINE
 			switch {
 			case len(s.Rhs) == len(s.Lhs):
-				w.assignRules(l, s.Rhs[i])
+				w.assignRules(l, s.Rhs[i], keep)
 			case len(s.Rhs) == 1:
-				w.assignRules(l, s.Rhs[0])
+				w.assignRules(l, s.Rhs[0], keep)
 			}
 		}
 	case *ast.IncDecStmt:
@@ -805,7 +806,7 @@ func (w *walker) stmt(s ast.Stmt) bool {
 						w.expr(v)
 						if i < len(vs.Names) && len(vs.Values) == len(vs.Names) {
 							w.noteFresh(vs.Names[i], v)
-							w.assignRules(vs.Names[i], v)
+							w.assignRules(vs.Names[i], v, false)
 						}
 					}
 				}
@@ -1385,6 +1386,9 @@ func (w *walker) callWith(e *ast.CallExpr, goCtx *ctx) {
 						if sel := w.info.Selections[s]; sel != nil && sel.Kind() == types.FieldVal {
 							w.access(s, kind, "sync/atomic")
 							w.base(s.X)
+							if kind == "awrite" {
+								w.atomicStoreRules(e)
+							}
 							for _, a := range e.Args[1:] {
 								w.expr(a)
 							}
